@@ -546,11 +546,29 @@ def gen(repo):
         _require(through == ["self.point_source.read_n_points"] and len(_calls(f, "self.point_source.read_n_points")) == 1,
                  f"read_points uses {through} of the point source")
         src = _norm(f)
-        for needed in ("points_left = self.header.point_count - self.points_read", "if points_left <= 0:", "n = min(n, points_left)",
-                       "record.PackedPointRecord.from_buffer(self.point_source.read_n_points(n), self.header.point_format)", "self.points_read += n"):
-            _require(needed in src, f"read_points lacks `{needed}`")
+        # each piece in one of its equivalent spellings (a temporary for the bytes handed to from_buffer, a conditional expression
+        # for the clamp, the augmented assignment spelled out)
+        tmp = [ast.unparse(a.targets[0]) for a in ast.walk(f) if isinstance(a, ast.Assign) and len(a.targets) == 1
+               and isinstance(a.targets[0], ast.Name) and _norm(a.value) == "self.point_source.read_n_points(n)"]
+        for needed in (("points_left = self.header.point_count - self.points_read",), ("if points_left <= 0:",),
+                       ("n = min(n, points_left)", "n = points_left if n < 0 else min(n, points_left)"),
+                       ("record.PackedPointRecord.from_buffer(self.point_source.read_n_points(n), self.header.point_format)",)
+                       + tuple(f"record.PackedPointRecord.from_buffer({t}, self.header.point_format)" for t in tmp),
+                       ("self.points_read += n", "self.points_read = self.points_read + n")):
+            _require(any(x in src for x in needed), f"read_points lacks `{needed[0]}`")
         it = find_func(find_class(rmod, "PointChunkIterator"), "__next__")
-        _require([_norm(x) for x in _strip_doc(it.body)] == ["points = self.reader.read_points(self.points_per_iteration)",
+
+        def next_shape(body):
+            """`v = self.reader.read_points(self.points_per_iteration)` followed by either branch order of the emptiness test"""
+            body = _strip_doc(body)
+            if len(body) != 3 or not isinstance(body[0], ast.Assign) or len(body[0].targets) != 1 or not isinstance(body[0].targets[0], ast.Name) \
+                    or _norm(body[0].value) != "self.reader.read_points(self.points_per_iteration)" or not isinstance(body[1], ast.If) or body[1].orelse:
+                return False
+            v = body[0].targets[0].id
+            t, inner, last = _norm(body[1].test), [_norm(x) for x in body[1].body], _norm(body[2])
+            return (t == f"not {v}" and inner == ["raise StopIteration"] and last == f"return {v}") \
+                or (t == v and inner == [f"return {v}"] and last == "raise StopIteration")
+        _require(next_shape(it.body) or [_norm(x) for x in _strip_doc(it.body)] == ["points = self.reader.read_points(self.points_per_iteration)",
                                                              "if not points: raise StopIteration", "return points"]
                  or [_norm(x).replace("\n", " ") for x in _strip_doc(it.body)][0] == "points = self.reader.read_points(self.points_per_iteration)"
                  and len(_strip_doc(it.body)) == 3 and isinstance(it.body[-2], ast.If) and _norm(it.body[-2].test) == "not points"
